@@ -18,6 +18,8 @@ func init() {
 			"every exit of a walk function that signals an error (return r.err()) has recorded an error on all paths in the validation pass; every leaf walker tests null-ness before it tests the JSON kind and, on the null edge, either renders null under Nullable or records the non-null violation; the JSON tree is nulled only in the validation pass (two idempotent array sites frozen); " +
 			"the renderer's bookkeeping stacks (response path, runtime type names, enclosing type names) are balanced on every exit of every walk function. It does not decide JSON validity, key-set equality or projection equality (value level).",
 		Mutants: []Mutant{
+			{Name: "inaccessible enum values looked up by binary search in an unsorted list (seeded change C02-22)", File: "v2/pkg/engine/resolve/node_enum.go", Rule: "C02-R11", Key: "Enum.isAccessibleValue/binary-search-over:InaccessibleValues",
+				Old: "\treturn !slices.Contains(e.InaccessibleValues, returnedValue)\n", New: "\t_, inaccessible := slices.BinarySearch(e.InaccessibleValues, returnedValue)\n\treturn !inaccessible\n"},
 			{Name: "kind-mismatch error of a list recorded with the already pushed path (the repaired defect F25)", File: "v2/pkg/engine/resolve/resolvable.go", Rule: "C02-R10", Key: "walkArray/addError-path-not-already-pushed",
 				Old: "\t\tr.addError(\"Array cannot represent non-array value.\", nil)", New: "\t\tr.addError(\"Array cannot represent non-array value.\", arr.Path)"},
 			{Name: "nested list nulls itself through its empty path (the repaired defect F24)", File: "v2/pkg/engine/resolve/resolvable.go", Rule: "C02-R9", Key: "walkArray/set-null-needs-a-path",
@@ -57,6 +59,7 @@ var c02Recorders = map[string]bool{
 
 func runC02(r *fw.Run) {
 	defer c02CopyPreserves(r)
+	defer c02BinarySearchNeedsSortedWriter(r)
 	defer c02ErrorPathNotDoubled(r)
 	defer c02SetNullNeedsAPath(r)
 	defer c02ErrorsIsAnArray(r)
@@ -889,4 +892,96 @@ func c02ErrorPathNotDoubled(r *fw.Run) {
 		in.Run(nil)
 	}
 	r.Expect("C02-R10", "calls of path-pushing error recorders in walk functions that push a path", n, 1)
+}
+
+// c02BinarySearchNeedsSortedWriter (R11): the renderer decides "valid / accessible value" and "type is possible" by looking
+// a name up in lists the planner filled (Enum.Values, Enum.InaccessibleValues, …) — in schema declaration order. A binary
+// search over such a field answers "absent" for present elements unless every writer of the field sorts what it stores:
+// with two or more unsorted @inaccessible values the inaccessible ones are rendered verbatim, with no error. The rule is a
+// writer/reader agreement with (today) zero readers: every slices.BinarySearch* / sort.Search* / sort.Find over a field of
+// a plan node requires that each function writing that field also sorts the stored value. The positive control is the
+// seeded mutant of the thorough tier.
+func c02BinarySearchNeedsSortedWriter(r *fw.Run) {
+	p := r.Prog
+	r.Rule("C02-R11", "a binary search over a field of a plan node (slices.BinarySearch*, sort.Search*, sort.Find) is allowed only if every function that writes that field sorts the stored value (the planner fills these lists in schema order)")
+	isSearch := func(fn *types.Func) bool {
+		if fn == nil || fn.Pkg() == nil {
+			return false
+		}
+		switch fn.Pkg().Path() {
+		case "slices":
+			return strings.HasPrefix(fn.Name(), "BinarySearch")
+		case "sort":
+			return strings.HasPrefix(fn.Name(), "Search") || fn.Name() == "Find"
+		}
+		return false
+	}
+	isSort := func(fn *types.Func) bool {
+		if fn == nil || fn.Pkg() == nil {
+			return false
+		}
+		switch fn.Pkg().Path() {
+		case "slices":
+			return strings.HasPrefix(fn.Name(), "Sort")
+		case "sort":
+			return fn.Name() == "Strings" || fn.Name() == "Ints" || fn.Name() == "Slice" || fn.Name() == "SliceStable" || fn.Name() == "Sort" || fn.Name() == "Stable"
+		}
+		return false
+	}
+	pkgs := []string{"resolve", "plan", "postprocess"}
+	nSearch, nScanned := 0, 0
+	for _, pa := range pkgs {
+		for _, fi := range p.Funcs(pa) {
+			info := fi.Info()
+			fw.WalkAll(fi.Decl.Body, func(nd ast.Node) bool {
+				c, ok := nd.(*ast.CallExpr)
+				if !ok {
+					return true
+				}
+				nScanned++
+				if !isSearch(fw.Callee(info, c)) || len(c.Args) == 0 {
+					return true
+				}
+				fv, _ := fw.Field(info, c.Args[0])
+				if fv == nil {
+					return true
+				}
+				nSearch++
+				// every writer of fv sorts
+				unsorted := ""
+				for _, pb := range pkgs {
+					for _, w := range p.Funcs(pb) {
+						wi := w.Info()
+						writes, sorts := false, false
+						fw.WalkAll(w.Decl.Body, func(m ast.Node) bool {
+							switch x := m.(type) {
+							case *ast.AssignStmt:
+								for _, l := range x.Lhs {
+									if f2, _ := fw.Field(wi, l); f2 == fv {
+										writes = true
+									}
+								}
+							case *ast.KeyValueExpr:
+								if id, isID := x.Key.(*ast.Ident); isID && wi.Uses[id] == fv {
+									writes = true
+								}
+							case *ast.CallExpr:
+								if isSort(fw.Callee(wi, x)) {
+									sorts = true
+								}
+							}
+							return true
+						})
+						if writes && !sorts && unsorted == "" {
+							unsorted = w.QName()
+						}
+					}
+				}
+				r.Check(unsorted == "", "C02-R11", fi.Name()+"/binary-search-over:"+fv.Name()+"#"+itoa(nSearch), p.Pos(c.Pos()), "the binary search over "+fv.Name()+" in "+fi.Name()+" reads a field all of whose writers sort it",
+					"the field is written by "+unsorted+" without sorting (the planner stores schema declaration order): the binary search misses elements that are present — e.g. an @inaccessible enum value is judged accessible and rendered verbatim with no error")
+				return true
+			})
+		}
+	}
+	r.Pass("C02-R11", "binary-searches-scanned", "-", "all "+itoa(nScanned)+" calls of resolve, plan and postprocess examined; "+itoa(nSearch)+" binary searches over plan-node fields", nScanned > 0)
 }
